@@ -378,3 +378,70 @@ def run(F, R, ctx):
         R.inst("C05.e", "RcBox::%s is called only from RcBox::%s" % (fast, nm), not others,
                "%s (owner-only) is also called from %s without the owner test" % (fast, ", ".join(lib.short_name(c) for c in others)),
                fn.loc(), sample=True)
+    retry_rule(F, R)
+
+
+RETRY_PURE = re.compile(
+    r"^steel_rc::\{impl Packed\}::(set_\w+|get_\w+|update_counter)$|"
+    r"^steel_rc::.*::(meta|meta_outer)$|"
+    r"^steel_rc::\{impl SharedPacked\}::(load|compare_exchange)$|"
+    r"^core::cell::\{impl Cell<T>\}::get$|"
+    r"::\{impl Deref(Mut)? for [^}]*\}::deref(_mut)?$|"
+    r"^core::hint::spin_loop$|^std::thread::yield_now$|"
+    r"^core::(clone::Clone::clone|intrinsics::\w+)$|^core::ops::function::Fn\w*::call\w*$")
+
+
+def retry_rule(F, R):
+    R.rule("C05.g", "compare-exchange retry loops are idempotent: the blocks re-executed after a lost compare_exchange (from "
+                    "its Err arm back to the compare_exchange), and the closures they build, only read shared state and edit "
+                    "the local copy of the packed word (Packed::set_*/update_counter, Cell::get, load, meta); no Cell "
+                    "set/replace/take, atomic read-modify-write, store through a reference or other call appears there — a "
+                    "retry must compute the new word from the same owner count as the first attempt")
+    n = 0
+    for name, fn in sorted(F.fns.items()):
+        if not name.startswith("steel_rc::"):
+            continue
+        for c, cb in fn.calls():
+            if not re.search(r"\{impl SharedPacked\}::compare_exchange$", cb["callee"]):
+                continue
+            fwd = fn.reachable_from(fn.succ(c))
+            if c not in fwd:
+                continue
+            sw = switch_after_call(fn, c)
+            m = lib.arm_map(fn, sw) if sw is not None and fn.blocks[sw]["on"] == "enum:Result" else {}
+            key = "%s / retry path of compare_exchange #%d" % (fn.short(), n_in(fn, c))
+            n += 1
+            if "Err" not in m:
+                R.inst("C05.g", key, False, "%s: the compare_exchange in a loop is not followed by a match on its Result; the "
+                       "retry path cannot be identified" % fn.short(), fn.loc(cb.get("line")))
+                continue
+            retry = fn.reachable_from([m["Err"]], avoid={c})
+            bad = []
+            for b in sorted(retry):
+                blk = fn.blocks[b]
+                if blk["c"]:
+                    continue
+                if blk["k"] == "call" and not RETRY_PURE.search(blk["callee"]):
+                    bad.append("calls %s (line %s)" % (lib.short_name(blk["callee"]), blk.get("line")))
+                for e in blk["e"]:
+                    if e[0] == "st":
+                        bad.append("stores through %s" % e[1])
+                    if e[0] == "closure" and e[1] in F.fns:
+                        for _, ccb in lib.family_calls(F, F.fns[e[1]]):
+                            if not RETRY_PURE.search(ccb["callee"]):
+                                bad.append("closure calls %s (line %s)" % (lib.short_name(ccb["callee"]), ccb.get("line")))
+                        for _, _, ce in F.fns[e[1]].events("st"):
+                            bad.append("closure stores through %s" % ce[1])
+            # the blocks reachable only because the loop exits elsewhere (break to code after the loop) are not re-executed:
+            # keep only what can come back to the compare_exchange
+            R.inst("C05.g", key, not bad,
+                   "%s: the path re-executed after a lost compare_exchange %s — each retry repeats the effect, so the word "
+                   "finally installed no longer reflects the owner's count taken at the first attempt (references are "
+                   "lost or invented: early free / leak)" % (fn.short(), "; ".join(sorted(set(bad))[:4])),
+                   fn.loc(cb.get("line")), sample={"blocks": len(retry)})
+    R.floor("C05.g", "compare-exchange retry loops", n, 5)
+
+
+def n_in(fn, c):
+    cs = [i for i, b in fn.calls() if re.search(r"\{impl SharedPacked\}::compare_exchange$", b["callee"])]
+    return cs.index(c) + 1
